@@ -846,6 +846,14 @@ class state_machine_base : public FrontEnd
             std::optional<process_result> try_process_impl(derived_t& sm)
             {
                 mark_for_deletion();
+                // The source state can have been left since this occurrence
+                // was armed (an exception aborted the step that armed it and
+                // the occurrence stayed in the pool): nothing to complete.
+                if (static_cast<state_machine_base&>(sm).m_active_state_ids[m_region_id] !=
+                    derived_t::template get_state_id<State>())
+                {
+                    return process_result::HANDLED_FALSE;
+                }
                 return sm.template
                     process_completion_transition<completion_transition>(m_region_id);
             }
